@@ -880,8 +880,9 @@ def _check_island_can_sleep(
   island_id = tree_island_in[worldid, treeid]
   if island_id >= 0 and island_id < nisland:
     as_val = tree_asleep_in[worldid, treeid]
-    if as_val < -1:
-      # Not ready to sleep yet
+    if as_val != -1:
+      # Not ready to sleep yet, or already asleep: constraint rows of a sleeping tree (limits,
+      # friction, equalities) put it in an island of its own; its sleep cycle must not be rebuilt
       wp.atomic_min(island_can_sleep_out, worldid, island_id, 0)
 
 
